@@ -1,4 +1,4 @@
-"""unicode.c / tokenize.c / type.c -> Gen/LiteralsGen.lean  (property C11)
+"""unicode.c / tokenize.c / type.c -> Gen/LiteralsGen.lean, Gen/LitReadersGen.lean, Gen/PpNumGen.lean  (property C11)
 
 Translated (regenerated on every check run, compared with the committed cache):
   unicode.c   encode_utf8, decode_utf8 (arithmetic, thresholds, masks), is_ident1/is_ident2 range tables
@@ -9,15 +9,20 @@ Translated (regenerated on every check run, compared with the committed cache):
               canonicalize_newline, remove_backslash_newline, convert_universal_chars: whole functions with the exact
               semantics of the in-place array rewriting (every store threaded through the buffer, a store outside the
               text is `none`), same file;
-              read_utf16_string_literal surrogate arithmetic; convert_pp_int: base-prefix ladder, suffix ladder,
-              type ladder with the `>> 31`, `>> 32`, `>> 63` tests exactly as written; convert_pp_number suffix -> type;
+              read_utf16_string_literal surrogate arithmetic; convert_pp_int: base-prefix ladder, suffix ladder (as tables, for the
+              hand model) and the type ladder with the `>> 31`, `>> 32`, `>> 63` tests exactly as written (limit macros such as
+              UINT32_MAX get the value and type of the host preprocessor's expansion); convert_pp_number suffix -> type;
               read_escaped_char simple-escape switch (values as the host compiler evaluates them: clang-14 AST);
-              per-prefix dispatch of tokenize() (reader, element type, post-processing of character constants)
+              per-prefix dispatch of tokenize() (reader, element type, post-processing of character constants);
+              into Gen/PpNumGen.lean: convert_pp_int AS A WHOLE, statement by statement (cursor.LadderFn: each if-ladder is a
+              function from the cursor to (new cursor, assigned locals); `strtoul` is a parameter of the Lean function; the
+              whole-token test; the type ladder above; `tok->val`, `tok->ty`); the pp-number arm of tokenize() (start test and
+              the `for (;;)` scan loop, cursor.ScanFn); tokenize_file from clang-14's typed AST (BOM `memcmp` with its literal
+              and lengths, the phase calls in order, nothing else touches the text before tokenize(new_file(.., p)))
   type.c      size / signedness of the ty_* objects used above
 Pinned (hand-modelled in Model/Literals.lean, Model/Text.lean; the translator only checks that the source text still has
 the shape the hand model was written after, and raises ExtractError otherwise):
-  the pp-number scan of tokenize(), tokenize_string_literal, the BOM test and the order of the phases in tokenize_file, preprocess.c getStringKind / join_adjacent_string_literals,
-  parse.c string_initializer.
+  tokenize_string_literal, startswith, preprocess.c getStringKind / join_adjacent_string_literals, parse.c string_initializer.
 """
 import re, hashlib
 from common import *
@@ -420,7 +425,7 @@ def gen_pp_int(src):
         raise ExtractError(want + 'whole-token test')
 
     # ---- type ladder
-    em = Emitter({'val': ('val', 'i64'), 'l': ('l', 'bool'), 'u': ('u', 'bool'), 'base': ('base', 'nat')})
+    em = Emitter(dict(host_limit_macros(body), val=('val', 'i64'), l=('l', 'bool'), u=('u', 'bool'), base=('base', 'nat')))
 
     def ty_expr(e, ind):
         if e[0] == 'id' and e[1] in TY_KNOWN:
@@ -562,12 +567,6 @@ PINS_TOKENIZE = {
                  t->next = tok->next; return t;"""),
 }
 
-PIN_TOKENIZE_FILE = r"""if (!memcmp(p, "\xef\xbb\xbf", 3)) p += 3; canonicalize_newline(p); remove_backslash_newline(p); convert_universal_chars(p);"""
-
-PIN_PP_NUMBER_SCAN = r"""if (isdigit(*p) || (*p == '.' && isdigit(p[1]))) { char *q = p++; for (;;) {
- if (p[0] && p[1] && strchr("eEpP", p[0]) && strchr("+-", p[1])) p += 2; else if (isalnum(*p) || *p == '.') p++; else break; }
- cur = cur->next = new_token(TK_PP_NUM, q, p); continue; }"""
-
 PIN_GET_STRING_KIND = r"""if (!strncmp(tok->loc, "u8", 2)) return STR_UTF8; switch (tok->loc[0]) { case '"': return STR_NONE;
  case 'u': return STR_UTF16; case 'U': return STR_UTF32; case 'L': return STR_WIDE; } unreachable();"""
 
@@ -598,8 +597,6 @@ def gen_dispatch(src):
     """tokenize(): which reader / element type / post-processing each literal prefix gets"""
     body = strip_comments(fn_body(src, 'tokenize', r'^Token\s*\*\s*tokenize\s*\(\s*File\s*\*\s*file\s*\)\s*\{'))
     nb = norm(body)
-    if norm(PIN_PP_NUMBER_SCAN) not in nb:
-        raise ExtractError('tokenize: pp-number scan changed; hand model Model/Literals.lean ppNumberLen was written after a different text')
     strs = []
     for m in re.finditer(r'if \((\*p == \'"\'|startswith\(p, "((?:\\.|[^"\\])*)"\))\) \{ cur = cur->next = '
                          r'(read_string_literal|read_utf16_string_literal|read_utf32_string_literal)\(p, p(?: \+ (\d+))?(?:, (ty_\w+))?\); '
@@ -839,12 +836,340 @@ def gen_char_reader(src, decode_err, errors):
     return out
 
 
+# ------------------------------------------------------------------ <stdint.h> / <limits.h> macros as the host compiler defines them
+
+LIMIT_MACROS = ['INT_MAX', 'UINT_MAX', 'LONG_MAX', 'ULONG_MAX', 'INT32_MAX', 'UINT32_MAX', 'INT64_MAX', 'UINT64_MAX', 'LLONG_MAX', 'ULLONG_MAX']
+_limit_cache = {}
+
+
+def host_limit_macros(text):
+    """Emitter environment entries for the limit macros that occur in `text`: value and type of the macro's expansion as the host
+    preprocessor (clang-14 -E) prints it, e.g. UINT32_MAX -> (4294967295U) -> unsigned int.  Only plain literals are accepted."""
+    import subprocess
+    env = {}
+    for name in LIMIT_MACROS:
+        if not re.search(r'\b' + name + r'\b', text):
+            continue
+        if name not in _limit_cache:
+            p = subprocess.run(['clang-14', '-std=c11', '-E', '-P', '-x', 'c', '-'], input=f'#include <stdint.h>\n#include <limits.h>\n{name}\n',
+                               capture_output=True, text=True)
+            exp = p.stdout.strip().splitlines()[-1].strip() if p.returncode == 0 and p.stdout.strip() else ''
+            e = cmini.parse_expr(exp) if exp else None
+            if e is None or e[0] != 'num':
+                raise ExtractError(f'host macro {name}: expansion {exp!r} is not a plain integer literal')
+            if 'u' not in e[2].lower() and 'l' not in e[2].lower() and e[1] >= 2**31:
+                raise ExtractError(f'host macro {name}: unsuffixed literal {exp} does not fit int')
+            _limit_cache[name] = Emitter({}).value(e)
+        env[name] = _limit_cache[name]
+    return env
+
+
+# ------------------------------------------------------------------ Gen/PpNumGen.lean: convert_pp_int, the pp-number scan, tokenize_file
+
+PPNUM_CALLS = {'isxdigit': ('bool', 'isxdigit'), 'isdigit': ('bool', 'isdigit'), 'isalnum': ('bool', 'isalnum')}
+
+
+def pin_startswith(src):
+    b = fn_body(src, 'startswith', r'^static\s+bool\s+startswith\s*\(\s*char\s*\*\s*p\s*,\s*char\s*\*\s*q\s*\)\s*\{')
+    if norm(b) != 'return strncmp(p, q, strlen(q)) == 0;':
+        raise ExtractError('startswith is no longer `strncmp(p, q, strlen(q)) == 0`: ' + norm(b))
+
+
+def gen_pp_int_fn(src):
+    """convert_pp_int as a whole: prefix ladder, `strtoul` (a parameter of the Lean function), suffix ladder, whole-token test, type
+    ladder (Gen/LiteralsGen.lean `intLitType`, generated from the same statement), result"""
+    body = fn_body(src, 'convert_pp_int', r'^static\s+bool\s+convert_pp_int\s*\(\s*Token\s*\*\s*tok\s*\)\s*\{')
+    st = parse_body(body)
+    want = 'convert_pp_int has a shape the translator does not understand: '
+    fn = cursor.LadderFn('convert_pp_int', 'convertPpInt', PPNUM_CALLS)
+    state = cursor.State(None, 0, {})
+    lines = []           # the body of the main function, one step per entry, innermost last
+    out = {}             # tok->field assignments
+    ty_declared = False
+    done = False
+    i = 0
+    while i < len(st):
+        s = st[i]
+        i += 1
+        if done:
+            raise ExtractError(want + 'statements after `return true;`')
+        if s[0] == 'decl' and s[1] == 'char*' and s[2] == 'p':
+            if s[3] != ('mem', '->', ('id', 'tok'), 'loc') or state.base is not None:
+                raise ExtractError(want + 'cursor declaration')
+            state.base, state.k = 'loc', 0
+            continue
+        if state.base is None:
+            raise ExtractError(want + 'a statement before the cursor is declared')
+        if s[0] == 'decl' and s[1] == 'int' and s[3] is not None and s[3][0] == 'num' and s[3][2] == '':
+            state.env[s[2]] = (str(s[3][1]), 'nat')
+            continue
+        if s[0] == 'decl' and s[1] == 'bool' and s[3] in (('id', 'true'), ('id', 'false')):
+            state.env[s[2]] = (s[3][1], 'bool')
+            continue
+        if s[0] == 'decl' and s[1] == 'int64_t' and s[3] is not None and s[3][0] == 'call':
+            c = s[3]
+            if c[1] != 'strtoul' or len(c[2]) != 3 or c[2][0] != ('id', 'p') or c[2][1] != ('un', '&', ('id', 'p')) or c[2][2][0] != 'id' \
+                    or state.env.get(c[2][2][1], (None, None))[1] != 'nat':
+                raise ExtractError(want + f'call {c}')
+            q = fn.fresh()
+            # unsigned long -> int64_t: the same 64 bits
+            lines.append(f'match strtoul p ({fn.at(state)}) ({state.env[c[2][2][1]][0]}) with\n| ({s[2]}, {q}) =>')
+            state.env[s[2]] = (s[2], 'i64')
+            state.base, state.k = q, 0
+            continue
+        if s[0] == 'decl' and s[1] == 'Type*' and s[3] is None:
+            ty_declared = s[2]
+            continue
+        if s[0] == 'if' and s[3] is None and unblock(s[2]) == [('ret', ('id', 'false'))]:
+            c = s[1]
+            if c[0] == 'bin' and c[1] in ('!=', '==') and c[2] == ('id', 'p'):
+                ctxt = f'({fn.pos(state, c[2])} {"≠" if c[1] == "!=" else "="} {fn.pos(state, c[3])})'
+            else:
+                ctxt = fn.cond(state, c)
+            if out:
+                raise ExtractError(want + '`return false` after the token has been modified')
+            lines.append(f'if {ctxt} then none else')
+            continue
+        if s[0] == 'if' and ty_declared and cursor.assigned_vars([s]) == {ty_declared}:
+            # the type ladder: Gen/LiteralsGen.lean `intLitType`, produced by gen_pp_int from this very statement (st[9])
+            if st.index(s) != 9:
+                raise ExtractError(want + 'the type ladder is not the statement gen_pp_int translates')
+            for v in ('base', 'l', 'u', 'val'):
+                if v not in state.env:
+                    raise ExtractError(want + f'type ladder before {v} is defined')
+            lines.append(f'let {ty_declared} : Ty := intLitType ({state.env["base"][0]}) ({state.env["l"][0]}) ({state.env["u"][0]}) ({state.env["val"][0]})')
+            state.env[ty_declared] = (ty_declared, 'ty')
+            continue
+        if s[0] == 'if':
+            doc = f'tokenize.c `convert_pp_int`, if-ladder no. {fn.nsel + 1}: the cursor after it' + ' and the values it leaves in {}'
+            name, outs = fn.selector(s, state, doc.format(', '.join('`' + v + '`' for v in state.env if v in cursor.assigned_vars([s]))))
+            q = fn.fresh()
+            lines.append(f'match {name} p ({fn.at(state)}) with\n| ({", ".join([q] + outs)}) =>')
+            state.base, state.k = q, 0
+            for v in outs:
+                state.env[v] = (v, state.env[v][1])
+            continue
+        if s[0] == 'expr' and s[1][0] == 'assign' and s[1][1] == '=' and s[1][2][0] == 'mem' and s[1][2][2] == ('id', 'tok'):
+            field, rhs = s[1][2][3], s[1][3]
+            if field == 'kind' and rhs == ('id', 'TK_NUM'):
+                out['kind'] = 'TK_NUM'
+            elif field == 'val' and rhs[0] == 'id' and state.env.get(rhs[1], (None, None))[1] == 'i64':
+                out['val'] = state.env[rhs[1]][0]
+            elif field == 'ty' and rhs[0] == 'id' and state.env.get(rhs[1], (None, None))[1] == 'ty':
+                out['ty'] = state.env[rhs[1]][0]
+            else:
+                raise ExtractError(want + f'assignment {s[1]}')
+            continue
+        if s == ('ret', ('id', 'true')):
+            if set(out) != {'kind', 'val', 'ty'}:
+                raise ExtractError(want + f'`return true` with tok fields {sorted(out)} set')
+            lines.append(f'some ({out["val"]}, {out["ty"]})')
+            done = True
+            continue
+        raise ExtractError(want + f'statement {s}')
+    if not done:
+        raise ExtractError(want + 'no `return true;` at the end')
+    body_txt = ''
+    depth = 0
+    for ln in lines:
+        body_txt += cursor.indent(ln, 2 + 2 * depth) + '\n'
+        depth += 1 if ln.startswith('match') else 0
+    txt = '\n'.join(fn.aux) + '\n'
+    txt += ('/-- tokenize.c `convert_pp_int(tok)`: `p` is the text that contains the token, `tok->loc` = `p + loc`, `tok->len` = `len`;\n'
+            '    `strtoul p i base` stands for libc `strtoul(p + i, &end, base)` and returns the value (`unsigned long`, stored in the\n'
+            '    `int64_t val` bit for bit) and `end - p`.  `none` = `return false` (the token is not an integer constant);\n'
+            '    `some (val, ty)` = `tok->val`, `tok->ty` (the type ladder is Gen/LiteralsGen.lean `intLitType`) -/\n')
+    txt += ('def convertPpInt (strtoul : List (BitVec 8) → Nat → Nat → BitVec 64 × Nat) (p : List (BitVec 8)) (loc len : Nat) :\n'
+            '    Option (BitVec 64 × Ty) :=\n' + body_txt)
+    return txt
+
+
+def tokenize_loop_body(src):
+    """statements of the `while (*p) { … }` loop of tokenize()"""
+    body = strip_comments(fn_body(src, 'tokenize', r'^Token\s*\*\s*tokenize\s*\(\s*File\s*\*\s*file\s*\)\s*\{'))
+    m = re.search(r'while\s*\(\s*\*p\s*\)\s*\{', body)
+    if not m:
+        raise ExtractError('tokenize: `while (*p) {` not found')
+    loop = function_body(body[m.start():], r'while\s*\(\s*\*p\s*\)\s*\{', 'tokenize loop')
+    return parse_body(loop)
+
+
+def gen_pp_scan(src):
+    """the pp-number arm of tokenize(): start test and scan loop, statement by statement"""
+    want = 'tokenize: the pp-number arm has a shape the translator does not understand: '
+    arms = [s for s in tokenize_loop_body(src) if s[0] == 'if' and 'TK_PP_NUM' in repr(s)]
+    if len(arms) != 1:
+        raise ExtractError(want + f'{len(arms)} statements mention TK_PP_NUM')
+    arm = arms[0]
+    b = unblock(arm[2])
+    if (arm[3] is not None or len(b) != 4 or b[0] != ('decl', 'char*', 'q', ('postinc', ('id', 'p'))) or b[1][0] != 'for'
+            or b[2] != ('expr', ('assign', '=', ('id', 'cur'), ('assign', '=', ('mem', '->', ('id', 'cur'), 'next'),
+                                                                 ('call', 'new_token', [('id', 'TK_PP_NUM'), ('id', 'q'), ('id', 'p')]))))
+            or b[3] != ('continue',)):
+        raise ExtractError(want + 'arm body')
+    f = cursor.ScanFn('tokenize (pp-number arm)', 'ppNumber', PPNUM_CALLS)
+    return f.translate(arm[1], 1, b[1],
+                       'tokenize(): the test of the "Numeric literal" arm at `p + start`',
+                       'tokenize(): the pp-number arm taken at `p + start` (`char *q = p++;`, then the `for (;;)` loop): the token is '
+                       '`[start, ppNumberEnd p start)`; every iteration but the last consumes at least one byte, so `p.length + 1` units of fuel suffice')
+
+
+def clang_fn(repo, cfile, name):
+    docs = clang_ast(repo, cfile, name)
+    fns = [d for d in docs if d.get('kind') == 'FunctionDecl' and d.get('name') == name
+           and any(c.get('kind') == 'CompoundStmt' for c in d.get('inner', []) or [])]
+    if len(fns) != 1:
+        raise ExtractError(f'{name}: definition not found in the clang AST')
+    return [c for c in fns[0]['inner'] if c.get('kind') == 'CompoundStmt'][0]
+
+
+def ast_strip(n):
+    """look through implicit casts and parentheses"""
+    while n.get('kind') in ('ImplicitCastExpr', 'ParenExpr', 'CStyleCastExpr') and len(n.get('inner', [])) == 1:
+        n = n['inner'][0]
+    return n
+
+
+def ast_ref(n):
+    n = ast_strip(n)
+    return n['referencedDecl']['name'] if n.get('kind') == 'DeclRefExpr' else None
+
+
+def ast_call(n):
+    """(callee, [args]) of a CallExpr, else None"""
+    n = ast_strip(n)
+    if n.get('kind') != 'CallExpr':
+        return None
+    return ast_ref(n['inner'][0]), n['inner'][1:]
+
+
+def ast_int(n):
+    n = ast_strip(n)
+    return int(n['value']) if n.get('kind') == 'IntegerLiteral' else None
+
+
+def ast_mentions(n, name):
+    if n.get('kind') == 'DeclRefExpr' and n.get('referencedDecl', {}).get('name') == name:
+        return True
+    return any(ast_mentions(c, name) for c in n.get('inner', []) or [] if isinstance(c, dict))
+
+
+def c_string_bytes(lit):
+    """bytes of a StringLiteral as clang prints it ("\\357\\273\\277")"""
+    if not (lit.startswith('"') and lit.endswith('"')):
+        raise ExtractError(f'string literal {lit!r}')
+    s, out, i = lit[1:-1], [], 0
+    while i < len(s):
+        if s[i] == '\\':
+            m = re.match(r'\\([0-7]{1,3})', s[i:])
+            if m:
+                out.append(int(m.group(1), 8)); i += len(m.group(0)); continue
+            m = re.match(r'\\x([0-9a-fA-F]{1,2})', s[i:])
+            if m:
+                out.append(int(m.group(1), 16)); i += len(m.group(0)); continue
+            raise ExtractError(f'string literal escape in {lit!r}')
+        out.append(ord(s[i])); i += 1
+    return out
+
+
+PHASE_FNS = {'canonicalize_newline': 'canonicalizeNewline', 'remove_backslash_newline': 'removeBackslashNewline',
+             'convert_universal_chars': 'convertUniversalChars'}
+
+
+def gen_tokenize_file(repo, src):
+    """tokenize_file from clang's typed AST: what happens to the text between read_file() and tokenize(), statement by statement"""
+    want = 'tokenize_file has a shape the translator does not understand: '
+    body = clang_fn(repo, 'tokenize.c', 'tokenize_file')
+    st = body['inner']
+    # 0: char *p = read_file(path);   1: if (!p) return NULL;
+    d0 = st[0]['inner'][0] if st and st[0].get('kind') == 'DeclStmt' else {}
+    if d0.get('kind') != 'VarDecl' or d0.get('type', {}).get('qualType') != 'char *' or not d0.get('inner') \
+            or (ast_call(d0['inner'][0]) or (None,))[0] != 'read_file':
+        raise ExtractError(want + 'first statement is not `char *p = read_file(path);`')
+    pv = d0['name']
+    s1 = st[1]
+    if (s1.get('kind') != 'IfStmt' or ast_strip(s1['inner'][0]).get('opcode') != '!' or ast_ref(ast_strip(s1['inner'][0])['inner'][0]) != pv
+            or s1['inner'][1].get('kind') != 'ReturnStmt' or len(s1['inner']) != 2):
+        raise ExtractError(want + 'second statement is not `if (!p) return NULL;`')
+    steps = []          # lean lines transforming `buf`
+    calls = []
+    k = 2
+    while k < len(st):
+        s = st[k]
+        if s.get('kind') == 'IfStmt' and len(s['inner']) == 2:
+            # if (!memcmp(p, "<lit>", n)) p += m;
+            c = ast_strip(s['inner'][0])
+            call = ast_call(c['inner'][0]) if c.get('kind') == 'UnaryOperator' and c.get('opcode') == '!' else None
+            t = s['inner'][1]
+            if (call is None or call[0] != 'memcmp' or len(call[1]) != 3 or ast_ref(call[1][0]) != pv
+                    or ast_strip(call[1][1]).get('kind') != 'StringLiteral' or ast_int(call[1][2]) is None
+                    or t.get('kind') != 'CompoundAssignOperator' or t.get('opcode') != '+=' or ast_ref(t['inner'][0]) != pv or ast_int(t['inner'][1]) is None):
+                raise ExtractError(want + f'statement {k} (an if that is not the BOM test)')
+            lit = c_string_bytes(ast_strip(call[1][1])['value'])
+            n, m = ast_int(call[1][2]), ast_int(t['inner'][1])
+            if n > len(lit) or 0 in lit[:n]:
+                raise ExtractError(want + 'memcmp compares past the literal or with a NUL')
+            test = ' ∧ '.join(f'byteAt buf {i} = 0x{lit[i]:X}#8' for i in range(n))
+            calls.append(f'memcmp:{m}')
+            steps.append(f'let buf := if ({test}) then buf.drop {m} else buf      -- if (!memcmp(p, "…", {n})) p += {m};')
+            k += 1
+            continue
+        call = ast_call(s)
+        if call is not None and call[0] in PHASE_FNS and len(call[1]) == 1 and ast_ref(call[1][0]) == pv:
+            calls.append(call[0])
+            steps.append(f'match {PHASE_FNS[call[0]]} buf with\n| none => none\n| some buf =>      -- {call[0]}(p);')
+            k += 1
+            continue
+        break
+    # the rest must not touch the text: `p` only occurs as the `contents` argument of new_file, whose result is what tokenize() gets
+    rest = st[k:]
+    uses = [s for s in rest if ast_mentions(s, pv)]
+    if len(uses) != 1 or uses[0].get('kind') != 'DeclStmt':
+        raise ExtractError(want + 'the text is used after the phases by something other than `File *file = new_file(…, p);`')
+    fv = uses[0]['inner'][0]
+    call = ast_call(fv['inner'][0]) if fv.get('inner') else None
+    if call is None or call[0] != 'new_file' or len(call[1]) != 3 or ast_ref(call[1][2]) != pv or ast_mentions(call[1][0], pv) or ast_mentions(call[1][1], pv):
+        raise ExtractError(want + 'new_file call')
+    last = rest[-1]
+    call = ast_call(last['inner'][0]) if last.get('kind') == 'ReturnStmt' and last.get('inner') else None
+    if call is None or call[0] != 'tokenize' or len(call[1]) != 1 or ast_ref(call[1][0]) != fv['name']:
+        raise ExtractError(want + 'the function does not end with `return tokenize(file);`')
+    nf = norm(strip_comments(fn_body(src, 'new_file', r'^File\s*\*\s*new_file\s*\(\s*char\s*\*\s*name\s*,\s*int\s+file_no\s*,\s*char\s*\*\s*contents\s*\)\s*\{')))
+    if 'file->contents = contents;' not in nf or nf.count('contents') != 2:
+        raise ExtractError('new_file no longer stores `contents` unchanged')
+    body_txt, depth = '', 0
+    for ln in steps:
+        body_txt += cursor.indent(ln, 2 + 2 * depth) + '\n'
+        depth += 1 if ln.startswith('match') else 0
+    body_txt += ' ' * (2 + 2 * depth) + 'some buf\n'
+    out = '/-- tokenize_file(): the calls made on the text between `read_file` and `tokenize`, in the order of clang\'s AST -/\n'
+    out += 'def tokenizeFileSteps : List String := [' + ', '.join(f'"{c}"' for c in calls) + ']\n\n'
+    out += ('/-- tokenize.c `tokenize_file`: the text handed to `tokenize()` for the array `buf` returned by `read_file` (the bytes before the\n'
+            '    terminator); `p += n` drops the first `n` bytes; each phase function rewrites the rest in place (Gen/LitReadersGen.lean);\n'
+            '    `none` = a store outside the text -/\n')
+    out += 'def tokenizeFileText (buf : List (BitVec 8)) : Option (List (BitVec 8)) :=\n' + body_txt
+    return out
+
+
+def gen_ppnum(repo, src):
+    pin_startswith(src)
+    out = HEADER.format(tool='literals.py (+cursor.py, cmini.py; clang-14 AST for tokenize_file)', src='tokenize.c')
+    out += 'import ChibiVerif.Gen.LitReadersGen\n\nset_option linter.unusedVariables false\n\nnamespace ChibiVerif.Gen.PpNum\n'
+    out += 'open ChibiVerif.Gen.Literals\nopen ChibiVerif.Gen.LitReaders\n\n'
+    out += cursor.TEXT_PREAMBLE
+    out += '-- ---------------------------------------------------------------- convert_pp_int\n\n'
+    out += gen_pp_int_fn(src) + '\n'
+    out += '-- ---------------------------------------------------------------- tokenize(): pp-number\n\n'
+    out += gen_pp_scan(src) + '\n'
+    out += '-- ---------------------------------------------------------------- tokenize_file\n\n'
+    out += gen_tokenize_file(repo, src) + '\n'
+    out += 'end ChibiVerif.Gen.PpNum\n'
+    return out
+
+
 def check_pins(repo, src):
     for name, (sig, text) in PINS_TOKENIZE.items():
         pin(strip_comments(function_body(src, sig, name)), text, f'tokenize.c {name}')
-    tf = norm(strip_comments(function_body(src, r'^Token\s*\*\s*tokenize_file\s*\(char \*path\)\s*\{', 'tokenize_file')))
-    if norm(PIN_TOKENIZE_FILE) not in tf:
-        raise ExtractError('tokenize_file: BOM / phase order changed; Model/Text.lean was written after a different text')
     pp = strip_comments(read(repo, 'preprocess.c'))
     pin(function_body(pp, r'^static\s+StringKind\s+getStringKind\s*\(Token \*tok\)\s*\{', 'getStringKind'), PIN_GET_STRING_KIND, 'preprocess.c getStringKind')
     pin(function_body(pp, r'^static\s+void\s+join_adjacent_string_literals\s*\(Token \*tok\)\s*\{', 'join_adjacent_string_literals'), PIN_JOIN,
@@ -873,4 +1198,4 @@ def generate(repo):
     out += gen_escape(repo, tsrc) + '\n'
     out += gen_dispatch(tsrc) + '\n'
     out += 'end ChibiVerif.Gen.Literals\n'
-    return {'LiteralsGen.lean': out, 'LitReadersGen.lean': gen_readers(repo, tsrc)}
+    return {'LiteralsGen.lean': out, 'LitReadersGen.lean': gen_readers(repo, tsrc), 'PpNumGen.lean': gen_ppnum(repo, tsrc)}
